@@ -209,7 +209,7 @@ def run(ctx):
             break
 
     # ---------------- K-lang: extracted evaluator vs real engine
-    n_prog = ctx.size(600, 12000)
+    n_prog = ctx.size(600, 9000)
     cases = []
     for i in range(n_prog):
         g = L.LGen(ctx.rng, neutral=ctx.rng.random() < 0.4, safe_ok=ctx.rng.random() < 0.3,
@@ -241,7 +241,7 @@ def run(ctx):
             ctx.validated()
 
     # ---------------- O-T: the property on the real engine for programs inside the hypotheses
-    n_o = ctx.size(600, 12000)
+    n_o = ctx.size(600, 9000)
     progs = []
     for i in range(n_o):
         g = L.LGen(ctx.rng, neutral=True, safe_ok=False, text=("safe", "meta"), ae="f", depth=3)
@@ -259,16 +259,20 @@ def run(ctx):
             ctx.reject({"kind": "T", "source": src, "prog": t, "data": d, "lists": dl}, w, "C16:T-program")
 
     # ---------------- O-sets: shared generator, include / import / extends / super
-    n_sets = ctx.size(400, 7000)
+    n_sets = ctx.size(400, 5000)
     for idx in range(n_sets):
         g = NGen(ctx.rng, meta=True, neutral=True, depth=3,
                  features=["if", "for", "set", "setblock", "with", "macro", "call", "include", "import", "extends"])
         ts, main = g.template_set()
         ts = {k: neutral_set_filters(v) for k, v in ts.items()}
         data = g.data()
-        w = judge_set(jinja2, ts, main, data, ctx)
+        mk = vary(ctx.rng, data)
+        for kind in mk.plan.values():
+            ctx.count("value_kind_" + kind)
+        w = judge_set(jinja2, ts, main, mk, ctx)
         if w:
-            ctx.reject({"kind": "set", "templates": ts, "data": data}, w, GEN_SIG if w == GEN_BUG else "C16:template-set")
+            ctx.reject({"kind": "set", "templates": ts, "data": data, "value_kinds": mk.plan}, w,
+                       GEN_SIG if w == GEN_BUG else "C16:template-set")
     for ts, mk in EXTRA_SETS:
         for _ in range(ctx.size(15, 200)):
             g = TGen(ctx.rng, meta=True)
@@ -317,7 +321,7 @@ def run_sets(ctx, jinja2):
     """second round: template sets of Model/EscLang2.v (set block with filter, include, import, blocks / super())"""
     # K-sets: extracted EscLang2.render vs the real engine, every template with its own selector setting
     cases = []
-    for _ in range(ctx.size(300, 5000)):
+    for _ in range(ctx.size(300, 4000)):
         st, d, dl, g = L2.gen_set(ctx.rng, neutral=ctx.rng.random() < 0.4, safe_ok=ctx.rng.random() < 0.2,
                                   text=("safe", "meta", "amp"), ae_ops="01f")
         cases.append((st, ctx.rng.random() < 0.5, d, dl, g.stats))
@@ -338,8 +342,40 @@ def run_sets(ctx, jinja2):
                                                                          "data": d, "lists": dl}, m, real, None)
         else:
             ctx.validated()
+    # H-sets: HISTORIES and configuration axes — a sequence of renders (flags / data alternating) on ONE environment,
+    # through render / generate / render_async, sandboxed / unoptimized / async environments, must give what a
+    # fresh default environment gives for each step (eval contexts, cached modules of imports, template cache)
+    for _ in range(ctx.size(120, 900)):
+        st, d, dl, g = L2.gen_set(ctx.rng, neutral=ctx.rng.random() < 0.5, safe_ok=False, text=("safe", "meta"), ae_ops="01f")
+        g2 = L.LGen(ctx.rng)
+        d2, dl2 = g2.data()
+        axis = ctx.rng.choice(["plain", "async", "sandbox", "unoptimized", "finalize"])
+        kw = {"async": {"enable_async": True}, "unoptimized": {"optimized": False}, "finalize": {"finalize": lambda x: x}}.get(axis, {})
+        try:
+            if axis == "sandbox":
+                from jinja2.sandbox import SandboxedEnvironment
+                srcs, main = L2.sources(st)
+                env = SandboxedEnvironment(loader=jinja2.DictLoader(srcs), autoescape=jinja2.select_autoescape(("html",)))
+            else:
+                env, main = L2.make_env(jinja2, st, **kw)
+        except Exception:
+            continue
+        seq = [(True, d, dl, "render"), (False, d2, dl2, "generate"), (True, d2, dl2, "async" if axis == "async" else "render"),
+               (False, d, dl, "render"), (True, d, dl, "generate")]
+        for step, (fl, dd, ll, how) in enumerate(seq):
+            got = L2.render_with(env, main, fl, dd, ll, how)
+            want = L2.real_render(jinja2, st, fl, dd, ll)
+            ctx.case(key=("hist", repr(sorted(L2.sources(st)[0].items())), step, axis) if got else None)
+            ctx.count("h_sets_" + axis)
+            if got != want:
+                srcs, _ = L2.sources(st)
+                ctx.reject({"kind": "history", "templates": srcs, "axis": axis, "step": step, "how": how, "flag": fl},
+                           f"render #{step} ({how}, {axis} environment, reused) gives {got!r}, a fresh environment gives {want!r}",
+                           "C16:history")
+            else:
+                ctx.validated()
     # O-sets2: the property on the real engine for sets inside the hypotheses of C16_escape_once_sets
-    for _ in range(ctx.size(300, 5000)):
+    for _ in range(ctx.size(300, 4000)):
         st, d, dl, g = L2.gen_set(ctx.rng, neutral=True, safe_ok=False, text=("safe", "meta"), ae_ops="f")
         on = L2.real_render(jinja2, dict(st, ae={t: True for t in st["ae"]}), True, d, dl)
         off = L2.real_render(jinja2, dict(st, ae={t: False for t in st["ae"]}), False, d, dl)
@@ -417,7 +453,85 @@ def judge_pair(on, off, ctx, key, sample, struct_nt, kind):
     return None
 
 
+class _S(str):
+    def __str__(self):
+        return str.__str__(self)
+
+
+class _O:
+    def __init__(self, v):
+        self.v = v
+
+    def __str__(self):
+        return self.v
+
+    def __repr__(self):
+        return "O(" + self.v + ")"
+
+
+class _It:
+    """__iter__-only, re-iterable"""
+
+    def __init__(self, items):
+        self.items = items
+
+    def __iter__(self):
+        return iter(self.items)
+
+    def __repr__(self):
+        return "It" + repr(self.items)
+
+
+class _Seq:
+    """__getitem__ / __len__ only"""
+
+    def __init__(self, items):
+        self.items = items
+
+    def __getitem__(self, i):
+        return self.items[i]
+
+    def __len__(self):
+        return len(self.items)
+
+    def __repr__(self):
+        return "Seq" + repr(self.items)
+
+
+def vary(rng, data):
+    """value kinds: str subclasses and objects with __str__, bool / float of equal value, tuples, __iter__-only and
+    __getitem__-only sequences, Mapping subclasses (a generator object prints its address: not comparable) — returns a factory of the data"""
+    import collections
+    plan = {}
+    for k, v in data.items():
+        r = rng.random()
+        if isinstance(v, str):
+            plan[k] = "S" if r < 0.15 else ("O" if r < 0.25 else None)
+        elif isinstance(v, bool):
+            plan[k] = None
+        elif isinstance(v, int):
+            plan[k] = "float" if r < 0.1 else ("bool" if r < 0.2 and v in (0, 1) else None)
+        elif isinstance(v, list):
+            plan[k] = "tuple" if r < 0.15 else ("iter" if r < 0.25 else ("seq" if r < 0.35 else None))
+        elif isinstance(v, dict):
+            plan[k] = "odict" if r < 0.3 else None
+        else:
+            plan[k] = None
+
+    def make():
+        out = {}
+        for k, v in data.items():
+            p = plan[k]
+            out[k] = (_S(v) if p == "S" else _O(v) if p == "O" else float(v) if p == "float" else bool(v) if p == "bool"
+                      else tuple(v) if p == "tuple" else _It(list(v)) if p == "iter" else _Seq(list(v)) if p == "seq"
+                      else collections.OrderedDict(v) if p == "odict" else v)
+        return out
+    make.plan = {k: p for k, p in plan.items() if p}
+    return make
+
+
 def render_set(jinja2, ts, main, data, autoescape):
+    data = data() if callable(data) else data
     try:
         env = jinja2.Environment(loader=jinja2.DictLoader(ts), autoescape=autoescape)
         return env.get_template(main).render(**data)
@@ -428,8 +542,9 @@ def render_set(jinja2, ts, main, data, autoescape):
 def judge_set(jinja2, ts, main, data, ctx, kind="set"):
     on = render_set(jinja2, ts, main, data, True)
     off = render_set(jinja2, ts, main, data, False)
-    return judge_pair(on, off, ctx, (kind, repr(sorted(ts.items())), repr(data)),
-                      {"oracle": "O-sets", "templates": ts, "data": repr(data)}, True, "o_" + kind)
+    shown = repr(data()) if callable(data) else repr(data)
+    return judge_pair(on, off, ctx, (kind, repr(sorted(ts.items())), shown),
+                      {"oracle": "O-sets", "templates": ts, "data": shown}, True, "o_" + kind)
 
 
 def replay(ctx, data):
